@@ -13,12 +13,90 @@ type Pub struct {
 	Payload []byte
 }
 
+// Held is one publish waiting to be forwarded to one subscriber (gated mode).
+type Held struct {
+	Sub     string // MQTT client id of the subscriber
+	Topic   string
+	Payload []byte
+	conn    net.Conn
+	pkt     []byte
+}
+
 type Broker struct {
 	mu    sync.Mutex
 	ln    net.Listener
 	subs  map[net.Conn]map[string]bool
 	conns map[net.Conn]bool
+	ids   map[net.Conn]string
 	Pubs  []Pub
+	// gated mode: publishes are not forwarded to subscribers until the harness releases them
+	gated bool
+	held  []*Held
+	// SubEvents counts SUBSCRIBE packets handled (so that a harness can wait for a subscription)
+	subEvents int
+}
+
+// SetGated switches forwarding to subscribers between immediate and held-until-released.
+func (b *Broker) SetGated(on bool) {
+	b.mu.Lock()
+	b.gated = on
+	b.mu.Unlock()
+}
+
+// HeldFor returns the publishes held for the subscriber with that MQTT client id, oldest first.
+func (b *Broker) HeldFor(sub string) []Held {
+	b.mu.Lock()
+	defer b.mu.Unlock()
+	var out []Held
+	for _, h := range b.held {
+		if h.Sub == sub {
+			out = append(out, *h)
+		}
+	}
+	return out
+}
+
+// HeldCount returns the number of held deliveries.
+func (b *Broker) HeldCount() int {
+	b.mu.Lock()
+	defer b.mu.Unlock()
+	return len(b.held)
+}
+
+// Release forwards the i-th (0-based) held publish of that subscriber.
+func (b *Broker) Release(sub string, i int) bool {
+	b.mu.Lock()
+	k := -1
+	var h *Held
+	for j, x := range b.held {
+		if x.Sub == sub {
+			k++
+			if k == i {
+				h = x
+				b.held = append(b.held[:j:j], b.held[j+1:]...)
+				break
+			}
+		}
+	}
+	b.mu.Unlock()
+	if h == nil {
+		return false
+	}
+	h.conn.Write(h.pkt)
+	return true
+}
+
+// Subscriptions returns how many topic subscriptions exist for that MQTT client id.
+func (b *Broker) Subscriptions(sub string) int {
+	b.mu.Lock()
+	defer b.mu.Unlock()
+	n := 0
+	for c, ts := range b.subs {
+		if b.ids[c] == sub {
+			n += len(ts)
+		}
+	}
+	return n
 }
 
 func New() (*Broker, error) {
@@ -26,7 +104,7 @@ func New() (*Broker, error) {
 	if err != nil {
 		return nil, err
 	}
-	b := &Broker{ln: ln, subs: map[net.Conn]map[string]bool{}, conns: map[net.Conn]bool{}}
+	b := &Broker{ln: ln, subs: map[net.Conn]map[string]bool{}, conns: map[net.Conn]bool{}, ids: map[net.Conn]string{}}
 	go func() {
 		for {
 			c, err := ln.Accept()
@@ -79,6 +157,7 @@ func (b *Broker) serve(c net.Conn) {
 		b.mu.Lock()
 		delete(b.subs, c)
 		delete(b.conns, c)
+		delete(b.ids, c)
 		b.mu.Unlock()
 		c.Close()
 	}()
@@ -98,6 +177,18 @@ func (b *Broker) serve(c net.Conn) {
 		}
 		switch h >> 4 {
 		case 1: // CONNECT
+			if len(body) >= 2 {
+				pl := int(body[0])<<8 | int(body[1])
+				off := 2 + pl + 1 + 1 + 2
+				if len(body) >= off+2 {
+					il := int(body[off])<<8 | int(body[off+1])
+					if len(body) >= off+2+il {
+						b.mu.Lock()
+						b.ids[c] = string(body[off+2 : off+2+il])
+						b.mu.Unlock()
+					}
+				}
+			}
 			c.Write([]byte{0x20, 2, 0, 0})
 		case 3: // PUBLISH qos0
 			tl := int(body[0])<<8 | int(body[1])
@@ -114,12 +205,18 @@ func (b *Broker) serve(c net.Conn) {
 					targets = append(targets, cc)
 				}
 			}
-			b.mu.Unlock()
 			pkt := []byte{0x30}
 			vb := append([]byte{byte(tl >> 8), byte(tl)}, []byte(topic)...)
 			vb = append(vb, payload...)
 			pkt = append(pkt, encLen(len(vb))...)
 			pkt = append(pkt, vb...)
+			if b.gated {
+				for _, t := range targets {
+					b.held = append(b.held, &Held{Sub: b.ids[t], Topic: topic, Payload: append([]byte{}, payload...), conn: t, pkt: pkt})
+				}
+				targets = nil
+			}
+			b.mu.Unlock()
 			for _, t := range targets {
 				t.Write(pkt)
 			}
